@@ -108,6 +108,12 @@ def events_for(pp, rnd, A, tag):
     return evs
 
 
+def _job(args):
+    import peptacular as pp
+    warnings.simplefilter("ignore")
+    return events_for(pp, random.Random(args[0]), args[1], args[2])
+
+
 def sig(e):
     A = e["A"]
     return (e["op"], len(A["seq"]) > 3, tuple(sorted(k for k in ("labile", "static", "isotope", "unknown", "nterm",
@@ -123,14 +129,15 @@ def run(tier, seed, rep):
     r = core.model_check("MC_ProForma", "MC_ProForma.cfg", env={"OUT_FILE": str(core.workdir() / "unused.ndjson")},
                          workers=8, xmx="6g")
     rep.add_mc("MC_ProForma (laws of reverse/shift/slice/split on the bounded space)", r)
-    evs = []
+    jobs = []
     for i in range(5000 if thorough else 500):
         kinds = "massy" if i % 2 == 0 else "all"
         A = anngen.annotation(rnd, 1, 25 if i % 3 else 6, kinds=kinds,
                               p={"interval": 0.5, "charge": 0.2})
         if kinds == "massy":
             A["static"] = [m for m in A["static"] if "^" not in m["v"]]
-        evs.extend(events_for(pp, rnd, A, f"a{i}"))
+        jobs.append((rnd.randrange(10 ** 9), A, f"a{i}"))
+    evs = [e for lst in core.pmap(_job, jobs) for e in lst]
     res = core.validate_traces("Trace_Annotation", evs, "C11")
     rep.add_trace("operations", evs, res, sig=sig)
     return rep.finish(rule="seeded abstract annotations (length 1..25, all modification kinds, intervals at start / "
